@@ -8,6 +8,7 @@ import Driver.StoreEng
 import Driver.PersistEng
 import Driver.ConfigEng
 import Driver.RateLimitEng
+import Driver.ValidateEng
 
 open Driver
 
@@ -33,4 +34,5 @@ def main (args : List String) : IO UInt32 := do
   | ["persist"] => loop stdin stdout PersistEng.step none; return 0
   | ["config"] => loop stdin stdout ConfigEng.step (); return 0
   | ["ratelimit"] => loop stdin stdout RateLimitEng.step none; return 0
+  | ["validate"] => loop stdin stdout ValidateEng.step (); return 0
   | _ => IO.eprintln "usage: kyro_driver <engine>"; return 2
